@@ -29,6 +29,82 @@ class DType:
         return f"torch.{self.name}"
 
 
+# ----------------------------------------------------------------------------- float width (ghost)
+# The value model has ONE kind "real" for float32 and float64 (A1).  Which of the two a tensor is, is tracked as a
+# ghost attribute of the cell, meta["fw"] in {32, 64, None = unknown}, by torch's type-promotion rules: constructors
+# without dtype= make float32, *_like / views / reductions keep the width, binary operations and cat / stack take the
+# widest operand (python scalars do not count), an IN-PLACE operation and an item assignment keep the width of their
+# target (torch rounds the result into it), autograd.grad returns the width of the variable.  No rounding is modelled:
+# the ghost only lets a contract say "the result has the precision of the inputs".
+_FW_CTORS = {"zeros", "ones", "empty", "full", "eye", "linspace", "rand", "randn", "tensor", "as_tensor", "FloatTensor", "normal"}
+_FW_NAMES = {"float64": 64, "double": 64, "float32": 32, "float": 32}
+
+
+def fw_of(x):
+    return x.meta.get("fw") if isinstance(x, Tensor) else None
+
+
+def _fw_tensors(xs, out):
+    for x in xs:
+        if isinstance(x, Tensor):
+            out.append(x)
+        elif isinstance(x, (list, tuple)):
+            _fw_tensors(x, out)
+    return out
+
+
+def fw_join(args):
+    ts = [t for t in _fw_tensors(args, []) if t.val.dtype == "real"]
+    if not ts:
+        return None
+    ws = [t.meta.get("fw") for t in ts]
+    return None if any(w is None for w in ws) else max(ws)
+
+
+def fw_mark(res, w, args=()):
+    """set the width of freshly made result cells (a result that IS one of the arguments -- in-place ops, .to() of
+    the same dtype -- keeps what it has)"""
+    ins = _fw_tensors(args, [])
+    for r in _fw_tensors([res] if not isinstance(res, (list, tuple)) else res, []):
+        if any(r is a for a in ins) or r.val.dtype != "real":
+            continue
+        if "fw" not in r.meta:
+            r.meta["fw"] = w
+    if hasattr(res, "values") and hasattr(res, "indices") and not isinstance(res, dict):
+        fw_mark(getattr(res, "values"), w, args)
+    return res
+
+
+def fw_wrap(name, fn):
+    base = name.split(".")[-1]
+
+    def g(I, *a, **k):
+        res = fn(I, *a, **k)
+        try:
+            dt = k.get("dtype")
+            if isinstance(dt, DType):
+                w = _FW_NAMES.get(dt.name)
+            elif base in _FW_CTORS:
+                w = 32
+                if base in ("tensor", "as_tensor") and a and isinstance(a[0], Tensor):
+                    w = fw_of(a[0])
+            elif base in ("float",):
+                w = 32
+            elif base in ("double",):
+                w = 64
+            elif base in ("to", "type"):
+                dts = [x for x in list(a) + list(k.values()) if isinstance(x, DType)]
+                w = _FW_NAMES.get(dts[0].name) if dts else fw_join(a[:1])
+            else:
+                w = fw_join(list(a) + list(k.values()))
+            fw_mark(res, w, list(a) + list(k.values()))
+        except Unsupported:
+            pass
+        return res
+
+    return g
+
+
 def dtype_kind(dt, default=None):
     if dt is None:
         return default
@@ -771,6 +847,8 @@ def tensor_attr(I, t, name):
     if name == "device":
         return "cpu"
     if name == "dtype":
+        if v.dtype == "real" and t.meta.get("fw") == 64:
+            return TORCH_DTYPES["float64"]  # float width ghost
         return TORCH_DTYPES[{"real": "float32", "int": "int64", "bool": "bool"}[v.dtype]]
     if name == "requires_grad":
         return t.requires_grad
@@ -795,7 +873,7 @@ def tensor_attr(I, t, name):
         if name.startswith("_") and not name.startswith("__") and name not in _REAL_PRIVATE_TENSOR_ATTRS:
             raise IN.RaisedEx("AttributeError", f"'Tensor' object has no attribute '{name}'")
         raise Unsupported(f"tensor.{name} has no model")
-    return B(f"Tensor.{name}", lambda I2, *a, **k: M(I2, t, *a, **k))
+    return B(f"Tensor.{name}", lambda I2, *a, **k: fw_wrap(name, M)(I2, t, *a, **k))
 
 
 def _same_factors(a, b):
@@ -1172,6 +1250,9 @@ def install(I):
         "linalg": S("torch.linalg", {"norm": B("linalg.norm", t_norm), "solve": B("linalg.solve", t_solve), "inv": B("linalg.inv", t_inv)}),
         "distributions": S("torch.distributions", {"normal": S("torch.distributions.normal", {"Normal": B("Normal", lambda I2, loc=0.0, scale=1.0, **kw: NormalDist(I2, loc, scale))})}),
     }
+    for _k, _v in list(tbl.items()):
+        if isinstance(_v, B) and _k not in ("is_tensor", "numel", "manual_seed"):
+            tbl[_k] = B(_v.name, fw_wrap(_k, _v.fn))
     tbl.update(TORCH_DTYPES)
     torch = S("torch", tbl)
     I.repo.externals["torch"] = torch
@@ -1189,4 +1270,12 @@ def install(I):
     from . import nnlib, autograd
 
     nnlib.install(I, torch)
-    torch.table["autograd"].table["grad"] = B("autograd.grad", autograd.grad)
+    def _grad(I2, outputs, inputs, *a, **k):
+        res = autograd.grad(I2, outputs, inputs, *a, **k)
+        ins = list(inputs) if isinstance(inputs, (list, tuple)) else [inputs]
+        for r, x in zip(res, ins):
+            if isinstance(r, Tensor) and "fw" not in r.meta:
+                r.meta["fw"] = fw_of(x)  # a gradient has the dtype of the variable
+        return res
+
+    torch.table["autograd"].table["grad"] = B("autograd.grad", _grad)
